@@ -55,7 +55,7 @@ static void fix_lengths(Bytes &w, long delta, const Hello &h, bool in_ext) {
 }
 
 static void prop(Tape &t, Ctx &c) {
-    int family = (int) t.below(10); family = family < 5 ? 0 : family < 6 ? 1 : 2;
+    int family = (int) t.below(10); family = family < 4 ? 0 : family < 5 ? 3 : family < 6 ? 1 : 2;
     uint32_t es = t.u16();
     vfh_entropy_reset(700 + es); vfh_clock_set_ms(1000000);
     matrixSslClose(); matrixSslOpen();
@@ -105,6 +105,46 @@ static void prop(Tape &t, Ctx &c) {
         }
         if (use_default_sets) VF_CHECK(o.c_done && o.s_done && o.c_ver == TLS13, "default-configuration-did-not-negotiate-tls13", "client done=%d server done=%d ver=%d; %s", o.c_done, o.s_done, o.c_ver, desc.c_str());
         if (cset.size() + sset.size() >= 3 || offered.size() >= 2) c.nontrivial(fmt("A|%d|%d|%d|%zu|%zu|%d%d|%d", cm, sm, ec, offered.size() > 3 ? 4 : offered.size(), disabled.size() > 2 ? 3 : disabled.size(), cems, sems, o.c_done));
+        return;
+    }
+    if (family == 3) {
+        // (D) the signature algorithm in force was offered by the client (signature_algorithms) and is one the server's key can
+        // produce: observed in the plaintext ServerKeyExchange of (D)TLS 1.2 ECDHE handshakes.  Identities: RSA key in an RSA-signed
+        // certificate, EC key in an ECDSA-signed certificate, EC key in an RSA-signed certificate (key type != issuer's signature type).
+        int ver = t.coin() ? TLS12 : DTLS12; int ia = (int) t.below(3); int iauth = ia == 0 ? AUTH_RSA : ia == 1 ? AUTH_EC : AUTH_ECRSA;
+        static const std::vector<uint16_t> ALL = { 0x0201, 0x0203, 0x0401, 0x0403, 0x0501, 0x0503, 0x0601, 0x0603, 0x0804, 0x0805, 0x0806 };
+        std::vector<uint16_t> offer; for (auto a : ALL) if (t.chance(1, 3)) offer.push_back(a);
+        if (offer.empty()) offer.push_back(ALL[t.below(ALL.size())]);
+        bool server_restricts = t.chance(1, 4); std::vector<uint16_t> senabled; if (server_restricts) { for (auto a : ALL) if (t.chance(1, 2)) senabled.push_back(a); if (senabled.empty()) server_restricts = false; }
+        uint16_t suite = iauth == AUTH_RSA ? (t.coin() ? 0xC02F : 0xC027) : (t.coin() ? 0xC02B : 0xC023);
+        std::string os, ss; for (auto a : offer) os += fmt("%04x,", a); for (auto a : senabled) ss += fmt("%04x,", a);
+        std::string desc = fmt("D: %s identity=%s suite=%04x client signature_algorithms=[%s] server sigalgs=[%s]", ver_name(ver), iauth == AUTH_RSA ? "RSA/RSA" : iauth == AUTH_EC ? "EC/ECDSA" : "EC-key/RSA-signed", suite, os.c_str(), server_restricts ? ss.c_str() : "default");
+        c.sample(desc); if (c.verbose) fprintf(stderr, "case: %s\n", desc.c_str());
+        Pair p; Config cc, sc; cc.client = true; sc.client = false; cc.versions = sc.versions = { ver }; cc.suites = { suite }; cc.auth = sc.auth = iauth; cc.entropy_stream = 1; sc.entropy_stream = 2;
+        cc.tweak = [&](sslSessOpts_t &o) { if (matrixSslSessOptsSetSigAlgs(&o, offer.data(), (psSize_t) offer.size()) < 0) throw Discard{}; };
+        if (server_restricts) sc.tweak = [&](sslSessOpts_t &o) { if (matrixSslSessOptsSetSigAlgs(&o, senabled.data(), (psSize_t) senabled.size()) < 0) throw Discard{}; };
+        if (p.s.open(sc) < 0 || p.c.open(cc) < 0) { c.count("D:session-creation-refused"); return; }
+        // observe the server's plaintext flight: SignatureAndHashAlgorithm of the ServerKeyExchange (handshake type 12)
+        int ske_alg = -1; const bool dt = ver == DTLS12;
+        p.mitm = [&](int dir, Bytes &d) { if (dir != 1) return; for (auto &r : parse_records(d, dt)) { if (r.type != 22) continue; size_t o = r.off + (dt ? 13 : 5), e = o + r.len;
+                while (o + (dt ? 12 : 4) <= e && e <= d.size()) { uint8_t ht = d[o]; size_t hl = (size_t) (d[o + 1] << 16 | d[o + 2] << 8 | d[o + 3]); size_t b = o + (dt ? 12 : 4); if (dt) { size_t fl = (size_t) (d[o + 9] << 16 | d[o + 10] << 8 | d[o + 11]); if (fl != hl) break; /* fragmented: not parsed */ }
+                    if (b + hl > e) break;
+                    if (ht == 12 && hl > 4 && d[b] == 3) { size_t pl = d[b + 3]; if (4 + pl + 2 <= hl) ske_alg = d[b + 4 + pl] << 8 | d[b + 4 + pl + 1]; }
+                    o = b + hl; } } };
+        p.run(60);
+        Outcome o = finish(p);
+        c.count(o.c_done && o.s_done ? "D:completed" : "D:failed");
+        if (o.c_done || o.s_done) {
+            VF_CHECK(o.c_done && o.s_done, "one-sided-completion", "client done=%d server done=%d; %s", o.c_done, o.s_done, desc.c_str());
+            VF_CHECK(ske_alg >= 0, "harness-ske-not-observed", "completed ECDHE handshake without an observed ServerKeyExchange; %s", desc.c_str());
+            c.count(fmt("D:ske-sigalg:%04x", ske_alg));
+            VF_CHECK(std::find(offer.begin(), offer.end(), (uint16_t) ske_alg) != offer.end(), "signature-algorithm-not-offered-by-client", "ServerKeyExchange signed with %04x; %s", ske_alg, desc.c_str());
+            if (server_restricts) VF_CHECK(std::find(senabled.begin(), senabled.end(), (uint16_t) ske_alg) != senabled.end(), "signature-algorithm-not-enabled-on-server", "ServerKeyExchange signed with %04x; %s", ske_alg, desc.c_str());
+            bool rsa_alg = (ske_alg & 0xff) == 0x01 || (ske_alg >> 8) == 0x08;
+            VF_CHECK(rsa_alg == (iauth == AUTH_RSA), "signature-algorithm-does-not-fit-server-key", "ServerKeyExchange signed with %04x by a %s key; %s", ske_alg, iauth == AUTH_RSA ? "RSA" : "EC", desc.c_str());
+            VF_CHECK(o.secrets_equal && o.data_ok, "master-secrets-differ", "%s", desc.c_str());
+        }
+        c.nontrivial(fmt("D|%d|%d|%04x|%zu|%d|%d", ver, iauth, suite, offer.size() > 4 ? 5 : offer.size(), server_restricts, o.c_done));
         return;
     }
     if (family == 1) {
